@@ -186,8 +186,8 @@ class Bench:
             if topo.ndims == 1:
                 # side observation (not C10): on the pinned tree function.normal over 0-D UniformDerivedTransforms.edges() of a uniform 1-D
                 # topology evaluates to +1 at both ends of every element; the same chains as PlainTransforms give the outward +-1
-                from nutils import transformseq
-                tr = transformseq.PlainTransforms(tuple(tr), tr.todims, tr.fromdims)
+                from nutils import transformseq, transform
+                tr = transformseq.PlainTransforms(tuple(transform.canonical(t) for t in tr), tr.todims, tr.fromdims)
             E = topology.TransformChainsTopology(topo.space, refs.take(sel), tr, tr)
             D = geom.shape[0]
             full = topo.ndims == D
@@ -987,7 +987,10 @@ def repro_refined_trimmed_simplex():
     sq = _repro_history(dict(kind='unitsquare', ndims=2, etype='square', n=3), ls2)
     out = {}
     for name, h in ('line', line), ('triangle', tri), ('square', sq):
-        idx, probs, mech = evaluate(h, Result())
+        r = Result()
+        idx, probs, mech = evaluate(h, r)
+        if r.counters.get('monitor_errors') or r.counters.get('mesh_construction_failed') or not r.counters.get('monitor/closure_normal'):
+            return None, f'monitors did not run on the {name} reproducer: {r.notes[:1]}'
         out[name] = (idx, probs, mech)
     if out['square'][0] is not None:
         return None, 'structured 2-D counterpart fails: ' + '; '.join(f'{m}: {d}' for m, d in out['square'][1])[:300]
@@ -1011,7 +1014,10 @@ def repro_retrimmed_3d_mosaic():
                              maxrefine=0, ndivisions=8, name='trim1', side='-'),
                         dict(op='trim', levelset=dict(kind='plane', normal=[0.20262794816285154, 0.597952009213375, -0.7754968145008724], offset=0.03850833414300592, tag='repro'),
                              maxrefine=0, ndivisions=8, name='trim2', side='-')])
-    idx, probs, mech = evaluate(history, Result())
+    r = Result()
+    idx, probs, mech = evaluate(history, r)
+    if r.counters.get('monitor_errors') or r.counters.get('mesh_construction_failed') or r.counters.get('monitor/trim_partition', 0) < 2:
+        return None, f'monitors did not run on the reproducer: {r.notes[:1]}'
     part = [d for m, d in probs if m == 'trim partitions the measure']
     if part and mech == KNOWN2:
         return True, 'cube.trim(plane*plane, maxrefine=0) complement .trim(plane, maxrefine=0): ' + part[0][:330]
